@@ -312,3 +312,113 @@ META = dict(
     trusted_base=["scipy.spatial.Voronoi, shapely (not axiomatised: geometric half is bounded only)", "numpy random Generator", "the independent clipping oracle"],
     assumptions=["A-RNG", "A-REAL", "A-NP-SUM (np.sum over the columns of one row = the named row sums ROWSUM / ROWSS)", "sum(weights) != 0 and 1 - sum nw^2 / N != 0"],
 )
+
+# ---------------------------------------------------------------------------------------------------------------------
+# the thin public layer of HvsrSpatial: the constructor (an own copy of an (N, 2) table of at least three sensors), spatial_weights (what _voronoi_weights returns
+# for the caller's boundary; any other declustering method refused), bounded_voronoi (the tessellation of the mask made from the caller's boundary) and
+# _boundary_to_mask (the convex hull of the boundary's rows, as points, in order).  shapely and the tessellation are opaque.
+from pyvc.core import PyRaise as _PyRaise, DictV as _DictV, OpaqueV as _OpaqueV, ORef as _ORef, LRef as _LRef
+NB_, DIMC = z3.Int("n_boundary_points"), z3.Int("n_columns")
+VWRES = z3.Function("voronoi_weights_result", I, I)         # boundary id -> (weights, indices) pair id
+MASKOF = z3.Function("mask_of_boundary", I, I)
+TESS = z3.Function("bounded_voronoi_of_mask", I, I)
+BND = z3.Int("boundary_id")
+
+
+def _sp_inputs(method):
+    def mk(ex, st):
+        st.env["self"] = sym_obj(ex, st, "HvsrSpatial", {}, owner="param:self")
+        st.env["boundary"] = BND
+        st.env["declustering_method"] = StrV(method)
+        return []
+    return mk
+
+
+_SP_REG = {"HvsrSpatial._voronoi_weights": FuncV(lambda ex, st, a, k, n_: Tup((VWRES(_lit(a[1])), VWRES(_lit(a[1])) + 1)), "_voronoi_weights"),     # (weights, indices) as two ids
+           "HvsrSpatial._boundary_to_mask": FuncV(lambda ex, st, a, k, n_: MASKOF(_lit([x for x in a if not isinstance(x, _ORef)][0])), "_boundary_to_mask"),
+           "HvsrSpatial._bounded_voronoi": FuncV(lambda ex, st, a, k, n_: TESS(_lit(a[1])), "_bounded_voronoi")}
+TASKS.append(FunctionTask(Contract(qual="hvsrpy.hvsr_spatial.HvsrSpatial.spatial_weights", params=["self", "boundary", "declustering_method"], ghost={"VW": VWRES, "BND": BND},
+                                   make_inputs=_sp_inputs("voronoi"), ensures=["result[0] == VW(BND) and result[1] == VW(BND) + 1"], modifies=[],
+                                   notes="(weights, indices) exactly as _voronoi_weights returns them for the caller's boundary, in that order"),
+                          registry=_SP_REG, label="hvsrpy.hvsr_spatial.HvsrSpatial.spatial_weights[voronoi]", clauses=["the spatial weights are the Voronoi weights of the caller's boundary"]))
+TASKS.append(FunctionTask(Contract(qual="hvsrpy.hvsr_spatial.HvsrSpatial.spatial_weights", params=["self", "boundary", "declustering_method"], make_inputs=_sp_inputs("cell"),
+                                   raises={"NotImplementedError": "True"}, ensures=[], modifies=[]),
+                          registry=_SP_REG, label="hvsrpy.hvsr_spatial.HvsrSpatial.spatial_weights[another method]", clauses=["another declustering method is refused, not silently replaced"]))
+TASKS.append(FunctionTask(Contract(qual="hvsrpy.hvsr_spatial.HvsrSpatial.bounded_voronoi", params=["self", "boundary"], ghost={"TESS": TESS, "MASKOF": MASKOF, "BND": BND},
+                                   make_inputs=_sp_inputs("voronoi"), ensures=["result == TESS(MASKOF(BND))"], modifies=[],
+                                   notes="the tessellation clipped by the mask made from the caller's boundary"),
+                          registry=_SP_REG, label="hvsrpy.hvsr_spatial.HvsrSpatial.bounded_voronoi", clauses=["the cells are clipped by the caller's boundary"]))
+
+# _boundary_to_mask
+BXY = z3.Const("boundary_points", _A2(R))
+
+
+def _btm_inputs(ex, st):
+    st.env["boundary"] = ex.alloc_arr(st, (NB_, DIMC), BXY, "real", "param:boundary", tag="boundary")
+    st.env["__hull_of"] = NONE
+    return [NB_ >= 0, DIMC >= 0]
+
+
+def _m_point(ex, st, args, kw, node):
+    d = ex.arr(st, args[0])
+    return ex.alloc_obj(st, "Point", {"x": ex.sel1(d, z3.IntVal(0)), "y": ex.sel1(d, z3.IntVal(1)), "n": d.shape[0]}, "fresh")
+
+
+def _m_multipoint(ex, st, args, kw, node):
+    from pyvc.core import SeqV
+    pts = args[0]
+    if not isinstance(pts, SeqV):
+        raise Undecided("MultiPoint of something other than the comprehension over the boundary rows")
+    mp = ex.alloc_obj(st, "MultiPoint", {}, "fresh")
+    st.env["__points"] = pts
+    return ModV("MultiPoint", {"convex_hull": _OpaqueV("convex hull of the boundary points")})
+
+
+def _hull_points(ex, st, a, k, n_):
+    """point i of the collection handed to shapely has the coordinates of boundary row i"""
+    pts = st.env.get("__points")
+    if pts is None:
+        return z3.BoolVal(False)
+    i = _lit(a[0])
+    p = pts.getter(ex, st, i)
+    o = st.heap[p.oid].fields
+    return z3.And(o["x"] == z3.Select(z3.Select(BXY, i), 0), o["y"] == z3.Select(z3.Select(BXY, i), 1))
+
+
+def _m_np_array_same(ex, st, args, kw, node):
+    d = ex.arr(st, args[0])
+    return ex.alloc_arr(st, d.shape, d.data, d.elem, "fresh", tag="array")
+
+
+_BTM_ENV = {"Point": FuncV(_m_point, "Point"), "MultiPoint": FuncV(_m_multipoint, "MultiPoint"), "np": ModV("np", dict(npm.NP.attrs, array=FuncV(_m_np_array_same, "np.array")))}
+BTM = Contract(qual="hvsrpy.hvsr_spatial.HvsrSpatial._boundary_to_mask", params=["boundary"], make_inputs=_btm_inputs,
+               ghost={"NB": NB_, "DIMC": DIMC, "hull_point": FuncV(_hull_points, "hull_point"),
+                      "n_points": FuncV(lambda ex, st, a, k, n_: st.env["__points"].length if st.env.get("__points") is not None else z3.IntVal(-1), "n_points")},
+               raises={"ValueError": "DIMC != 2"}, ensures=["n_points() == NB", "forall(i, 0, NB, hull_point(i))"], modifies=[],
+               notes="the mask is the convex hull of exactly the boundary's rows taken as points (x = first column, y = second); a table that is not (N, 2) is refused")
+BTM.ghost_state = ()
+TASKS.append(FunctionTask(BTM, module_env=_BTM_ENV, label="hvsrpy.hvsr_spatial.HvsrSpatial._boundary_to_mask", clauses=["the region is the convex hull of the boundary points given"]))
+
+# HvsrSpatial.__init__
+CXY = z3.Const("coordinates_given", _A2(R))
+NCP, NCD = z3.Ints("n_coordinates n_coordinate_columns")
+
+
+def _ctor_inputs(ex, st):
+    st.env["self"] = sym_obj(ex, st, "HvsrSpatial", {}, owner="param:self")
+    st.env["coordinates"] = ex.alloc_arr(st, (NCP, NCD), CXY, "real", "param:coordinates", tag="coordinates")
+    return [NCP >= 0, NCD >= 0]
+
+
+def _own(ex, st, a, k, n_):
+    r = st.heap[st.env["self"].oid].fields.get("coordinates")
+    return z3.BoolVal(isinstance(r, ARef) and st.heap[r.sid].owner == "fresh" and st.heap[r.sid].view_of is None)
+
+
+SPCTOR = Contract(qual="hvsrpy.hvsr_spatial.HvsrSpatial.__init__", params=["self", "coordinates"], make_inputs=_ctor_inputs,
+                  ghost={"NCP": NCP, "NCD": NCD, "GIVEN": lambda i, j: z3.Select(z3.Select(CXY, i), j), "own": FuncV(_own, "own")},
+                  raises={"ValueError": "NCD != 2 or NCP < 3"},
+                  ensures=["self.coordinates.shape[0] == NCP and self.coordinates.shape[1] == 2", "forall(i, 0, NCP, forall(j, 0, 2, self.coordinates[i, j] == GIVEN(i, j)))", "own()"],
+                  modifies=["param:self"], notes="the sensors in the order given, in storage of the object's own; fewer than three sensors or a table that is not (N, 2) is refused")
+TASKS.append(FunctionTask(SPCTOR, module_env={"np": ModV("np", dict(npm.NP.attrs, array=FuncV(_m_np_array_same, "np.array")))}, label="hvsrpy.hvsr_spatial.HvsrSpatial.__init__",
+                          clauses=["the sensors keep the order given (the returned indices refer to it)"]))
